@@ -34,7 +34,9 @@ RULE = ("integrate_column: every selection of 2..5 (quick) / 2..6 (thorough) "
         "every interior node, two inexact float rescalings at k-ulp "
         "tolerance), or one (grid, block of 3 or 6 integrands laid out as "
         "columns, rank 2|3, axis position, axis sign, coordinate form "
-        "1-D|same-shape|size-1-broadcast|none, Fraction|float), or one "
+        "1-D|same-shape|size-1-broadcast|none, Fraction|float; with axis "
+        "position 0 given positively the call is repeated with axis left "
+        "to its default), or one "
         "linearity pair (grid of <=3 nodes, y, z, (a,b)) evaluated as "
         "columns of one rank-2 call, or one 10^4-level column. Non-trivial "
         "= some integrand involved is not constant along the integration "
@@ -209,14 +211,22 @@ def check_nd(tier, n, k, block, rank, pos, negative, xform, kind):
             xa = array(gs[k], kind)
             if xform == "keepdims":
                 xa = xa.reshape((1,) * pos + (n,) + (1,) * (rank - 1 - pos))
-    got = ic(ya, xa, axis=axis)
     refs = [reference(g, c) for g, c in zip(colgrids, cols)]
-    if np.shape(got) != other:
-        return ("integrate_column/nd-shape", other, np.shape(got), "")
-    for ref, idx in zip(refs, np.ndindex(*other)):
-        if ex.exact(got[idx]) != ref:
-            return ("integrate_column/nd-value", refs, got,
-                    "column %r" % (idx,))
+    results = [("", ic(ya, xa, axis=axis))]
+    if pos == 0 and not negative:
+        try:
+            results.append(("default-axis-", ic(ya, xa)))
+        except ex.Raised as e:
+            return ("integrate_column/default-axis-raises", refs, e.text,
+                    e.key)
+    for what, got in results:
+        if np.shape(got) != other:
+            return ("integrate_column/%snd-shape" % what, other,
+                    np.shape(got), "")
+        for ref, idx in zip(refs, np.ndindex(*other)):
+            if ex.exact(got[idx]) != ref:
+                return ("integrate_column/%snd-value" % what, refs, got,
+                        "column %r" % (idx,))
     return None
 
 
